@@ -123,17 +123,25 @@ def rand_tri(rng, nvars=None, nsteps=None):
     used = set()
     nvars = nvars or rng.randrange(2, 9)
     vs = []
+    # identifiers that share 31..56 leading characters (a GHW string table stores each string as the characters that follow
+    # the prefix shared with its predecessor; the length of a prefix of 32 or more takes two bytes)
+    long_names = rng.random() < 0.3
+
+    def nm():
+        if long_names and rng.random() < 0.7:
+            return fresh(rng, used, PREFIX[:rng.choice([31, 32, 33, 40, 56])] + rng.choice(["valid_in", "valid_out", "valid", "x", "data"]))
+        return fresh(rng, used)
     for _ in range(nvars):
         r = rng.random()
         if r < 0.55:
             w = rng.choice([2, 3, 4, 5, 7, 8, 9, 12, 15, 16, 17, 24, 31, 32, 33, 64, 65])
-            vs.append(fg.Var(fresh(rng, used), "logic", rng=(w - 1, 0)))
+            vs.append(fg.Var(nm(), "logic", rng=(w - 1, 0)))
         elif r < 0.8:
-            vs.append(fg.Var(fresh(rng, used), "logic"))
+            vs.append(fg.Var(nm(), "logic"))
         elif r < 0.9:
-            vs.append(fg.Var(fresh(rng, used), "real"))
+            vs.append(fg.Var(nm(), "real"))
         else:
-            vs.append(fg.Var(fresh(rng, used), "int"))
+            vs.append(fg.Var(nm(), "int"))
     # nest: top scope, optional inner scopes
     top = []
     inner = None
@@ -234,10 +242,32 @@ def rand_fst(rng):
                 dt = rng.choice([d for d, sc in VHDL_DT.items() if sc == (1 if w == 1 else 0) or d in (10, 14)])
                 v.extra["vhdl"] = (rng.choice(["STD_LOGIC", "STD_LOGIC_VECTOR", "my_type", "UNSIGNED"]), rng.choice([0, 1]), dt)
         vs.append(v)
+    # array-named variables: `mem[0]`, `mem [1] [7:0]`, `a[0][1]`: the loader opens an array scope per name and group; the
+    # elements of one array are consecutive here, what follows (a variable, a scope, the end of the scope) varies
+    units = []
+    k = 0
+    while k < len(vs):
+        v = vs[k]
+        ok_elem = lambda x: x.kind == "logic" and x.rng is not None and x.extra.get("alias_of") is None
+        if rng.random() < 0.35 and ok_elem(v):
+            n = 1
+            while n < 3 and k + n < len(vs) and ok_elem(vs[k + n]) and rng.random() < 0.6:
+                n += 1
+            sep = rng.choice(["", " "])
+            base = fresh(rng, used, "mem")
+            elems = vs[k:k + n]
+            lo = rng.choice([0, 1, 5])
+            for j, e in enumerate(elems):
+                e.name = "[%d]" % (lo + j)
+            units.append(fg.Scope(base, elems, kind="fst_array", fst_array=sep))
+            k += n
+        else:
+            units.append(v)
+            k += 1
     top = []
     stack = [top]
     scopes = 0
-    for v in vs:
+    for v in units:
         if rng.random() < 0.3:
             extra = {}
             if rng.random() < 0.5:
@@ -295,6 +325,10 @@ def rand_fst(rng):
         p0 += sz
     opts = {"exponent": exponent, "blocks": sizes, "use_frame": use_frame, "hier": rng.choice(["gz", "lz4"]), "split": split,
             "zlib_values": rng.random() < 0.3, "zlib_times": rng.random() < 0.3, "zlib_geometry": rng.random() < 0.3}
+    if rng.random() < 0.6:
+        # handles of enum tables and ids of path names are arbitrary distinct numbers, not 1, 2, 3, ...
+        opts["enum_handles"] = rng.sample(range(1, 40), 6)
+        opts["path_ids"] = rng.sample(range(1, 40), 6)
     return items, opts
 
 
@@ -384,9 +418,12 @@ def rand_ghw(rng):
     stack = [top]
     for v in units:
         if rng.random() < 0.3:
-            s = fg.Scope(fresh(rng, used, "u"), [], kind=rng.choice(["instance", "package", "block", "generate_if", "generic"]))
+            kind = rng.choice(["instance", "package", "block", "generate_if", "generic", "generate_for"])
+            s = fg.Scope(fresh(rng, used, "u"), [], kind=kind, **({"iter": rng.choice([0, 1, 7, -3, 300])} if kind == "generate_for" else {}))
             stack[-1].append(s)
             stack.append(s.children)
+        if rng.random() < 0.1:
+            stack[-1].append(fg.Scope(fresh(rng, used, "proc"), [], kind="process"))
         stack[-1].append(v)
         if len(stack) > 1 and rng.random() < 0.3:
             stack.pop()
@@ -453,6 +490,14 @@ def write_case(d, k, case):
             fg.write_vcd(path, items, timescale=text)
             return "wobs " + path + (" st" if opts.get("single_thread") else ""), fg.expected_wobs(items, ts=fst_ts(e))
         fg.write_vcd(path, items)
+        if opts.get("pymtl3"):
+            # the dialect of pymtl3: every binary value, 1-bit ones included, is written as `b0b<bits> <id>`
+            import re
+            text = open(path, "rb").read().decode("latin1")
+            head, sep, body = text.partition("$enddefinitions $end")
+            body = re.sub(r"(?m)^([01])(\S+)$", r"b0b\1 \2", body)
+            body = re.sub(r"(?m)^b([01]+) (\S+)$", r"b0b\1 \2", body)
+            open(path, "wb").write((head + sep + body).encode("latin1"))
         return "wobs " + path + (" st" if opts.get("single_thread") else ""), fg.expected_wobs(items)
     if fmt == "fst":
         chain = fg.write_fst(path, items, **opts)      # the file's own time chain (a time may be listed twice)
@@ -588,6 +633,8 @@ def tri_cases(rng, tier):
             cases.append({"fmt": fmt, "spec": spec, "opts": {}, "klass": "file-%s-%s" % (fmt, klass), "key": ("tri", klass, k)})
         if klass != "random" or k % 4 == 0:
             cases.append({"fmt": "vcd", "spec": spec, "opts": {"single_thread": True}, "klass": "file-vcd-st-%s" % klass, "key": ("tri", klass, k)})
+        if klass == "random" and k % 5 == 1:
+            cases.append({"fmt": "vcd", "spec": spec, "opts": {"pymtl3": True}, "klass": "file-vcd-pymtl3-dialect", "key": ("tri-pymtl3", k)})
         if klass == "random" and k % 3 == 0:
             # the same design under another time scale (VCD and FST can express it; a GHW file is always in fs)
             e = [-14, -13, -12, -11, -10, -9, -8, -7, -6, -5, -4, -3, -2, -1, 0, 1, 2][(k // 3) % 17]
